@@ -6,6 +6,7 @@ import (
 	"fmt"
 	"math"
 	"sort"
+	"strings"
 
 	"golang.org/x/tools/go/ssa"
 )
@@ -57,27 +58,34 @@ type AssertStat struct {
 }
 
 type Path struct {
-	prefix    []Dec
-	pos       int
-	trace     []Dec
-	pc        []*Term
-	facts     map[*Term]bool
-	globals   map[*ssa.Global]*value
-	steps     int
-	depth     int
-	inInit    int
-	events    []Event
-	nchan     int
-	inputs    []*InputVar
-	tagCount  map[string]int
-	labels    map[string]string
-	covers    map[string]bool
-	side      map[*value]interface{} // stub state keyed by object address
-	opaqueN   int
-	opaqueIDs map[string]int
-	tmplData  []value
-	nViol     int
-	chooseN   int // number of non-forced choose decisions (shape)
+	prefix       []Dec
+	pos          int
+	trace        []Dec
+	pc           []*Term
+	facts        map[*Term]bool
+	globals      map[*ssa.Global]*value
+	steps        int
+	depth        int
+	inInit       int
+	events       []Event
+	nchan        int
+	inputs       []*InputVar
+	tagCount     map[string]int
+	labels       map[string]string
+	covers       map[string]bool
+	side         map[*value]interface{} // stub state keyed by object address
+	opaqueN      int
+	files        map[string]*vfile
+	notExistErrs []*value
+	days         map[string]*dayInfo
+	dayByExt     map[*Term]string
+	nowN         int
+	pfSeen       map[*Term]bool
+	pfTokens     []*Term // presentation preference: accepted tokens are plain decimals
+	opaqueIDs    map[string]int
+	tmplData     []value
+	nViol        int
+	chooseN      int // number of non-forced choose decisions (shape)
 }
 
 type PathResult struct {
@@ -372,8 +380,8 @@ func (in *Interp) assert(tag string, c *Term) {
 		model = pm
 	}
 	in.recordViolation(tag, model, "")
-	// continue under the assumption that the assertion held
-	in.assume(c)
+	// execution continues with the path condition unchanged, so that later assertions are
+	// checked for the same inputs (a second defect with the same trigger is not masked)
 }
 
 // crossCheck re-decides a discharged assertion with the other back ends (thorough tier, or
@@ -416,14 +424,19 @@ func (in *Interp) presentableModel(nc *Term) map[*Term]ModelVal {
 				n++
 			}
 		case "byte":
-			// printable ASCII
-			extra = append(extra, tb.BVULe(tb.BV(SBV8, 0x20), iv.T), tb.BVULe(iv.T, tb.BV(SBV8, 0x7e)))
+			if strings.HasSuffix(iv.Tag, "num") {
+				// number tokens are constrained below through pfTokens
+			} else {
+				// printable ASCII
+				extra = append(extra, tb.BVULe(tb.BV(SBV8, 0x20), iv.T), tb.BVULe(iv.T, tb.BV(SBV8, 0x7e)))
+			}
 			n++
 		}
 	}
 	if n == 0 {
 		return nil
 	}
+	extra = append(extra, in.path.pfTokens...)
 	v, m := in.solve("present", extra, in.inputTerms())
 	if v == Sat {
 		return m
